@@ -98,6 +98,20 @@ def kernel_cases(ctx):
         xs += [rng.range(-32767, 32767) for _ in range(40)] + [rng.range(-3 * d, 3 * d) for _ in range(10)]
         xs = [max(-32768, min(32767, x)) for x in xs][:64]
         cases.append(("quant %d %s" % (d, " ".join(map(str, xs))), "k-quant"))
+    # whole row groups: max_v_samp_factor / v_samp_factor 1..4 rows per kernel call (model compared)
+    for mv in (1, 2, 3, 4):
+        for rep in range(ctx.n(3, 12)):
+            w = rng.choice([3, 5, 16, 17, 31, 32, 33, 40, 65])
+            nb = ((w + 31) // 32) * 32 + 32
+            for v2 in (0, 1):
+                nin = (mv + 1) // 2 if v2 else mv
+                ow = rng.choice([2 * w, 2 * w - 1])
+                cases.append(("plaing %d %d %d | %s" % (v2, ow, mv, " | ".join(" ".join(map(str, rb(rng, w))) for _ in range(nin))), "k-rows-plain"))
+                cases.append(("fancyg %d %d %d | %s" % (v2, w, mv, " | ".join(" ".join(map(str, rb(rng, nb))) for _ in range(nin + 2))), "k-rows-fancy"))
+                iw = rng.range(1, 70)
+                wib = ((iw + 1) // 2 + 7) // 8
+                nd = 2 * mv if v2 else mv
+                cases.append(("downg %d %d %d %d | %s" % (v2, iw, wib, mv, " | ".join(" ".join(map(str, rb(rng, iw))) for _ in range(nd))), "k-rows-down"))
     # fast forward DCT: the refutation witness of props/C05.v (black/white stripes), high- and low-amplitude blocks
     stripes = [127 if ((x // 3 + y // 2) & 1) else -128 for y in range(8) for x in range(8)]
     cases.append(("fdctfst " + " ".join(map(str, stripes)), "k-fdctfst-high"))
@@ -128,6 +142,13 @@ def kernel_cases(ctx):
             cases.append(("bulk down %d 0 %d" % (v2, seed + r), "k-bulk-down"))
             cases.append(("bulk fancy %d 0 %d" % (v2, seed + r), "k-bulk-fancy"))
             cases.append(("bulk plain %d 0 %d" % (v2, seed + r), "k-bulk-plain"))
+    for r in range(ctx.n(1, 6)):
+        for v2 in (0, 1):
+            cases.append(("bulk rowsup 0 %d %d" % (v2, seed + r), "k-bulk-rows-plain"))
+            cases.append(("bulk rowsup 1 %d %d" % (v2, seed + r), "k-bulk-rows-fancy"))
+            cases.append(("bulk rowsdown %d 0 %d" % (v2, seed + r), "k-bulk-rows-down"))
+    for cs in ALL_CS:
+        cases.append(("bulk rowscolour %d 0 %d" % (cs, seed), "k-bulk-rows-colour"))
     if T:
         for lo in range(1, 2041, 120):      # every int16 coefficient x every divisor 1..255*8
             cases.append(("bulk quant %d %d 1" % (lo, min(2040, lo + 119)), "k-bulk-quant"))
@@ -165,7 +186,13 @@ def kernel_sig(line, stream):
     if t[0] == "bulk":
         if t[1] in ("fdct", "idct") and t[2] == "1" and t[3] == "0":
             return "ifast-16bit-overflow:kernel-" + t[1]
+        if t[1] == "rowsup":
+            return "kernel:rows-%s-h2v%s" % ("fancy" if t[2] == "1" else "plain", "2" if t[3] == "1" else "1")
+        if t[1] == "rowsdown":
+            return "kernel:rows-down-h2v%s" % ("2" if t[2] == "1" else "1")
         return "kernel:" + "-".join(t[1:3] if t[1] in ("fdct", "idct", "down", "fancy", "plain") else t[1:2])
+    if t[0] in ("plaing", "fancyg", "downg"):
+        return "kernel:rows-%s-h2v%s" % (t[0][:-1], "2" if t[1] == "1" else "1")
     if t[0] == "fdctfst" and stream.endswith("high"):
         return "ifast-16bit-overflow:kernel-fdct"
     return "kernel:" + t[0]
@@ -259,6 +286,20 @@ def codec_cases(ctx):
     for h in heights:
         for ss in range(7):
             cases.append(one(rng.range(1, 130), h, ss))
+    # libjpeg API, explicit (incl. non-standard) sampling factors: components with 2..4 rows per row group, h2v1 with
+    # v_samp 2/3, h1v2, 4x1, 4x2, mixed; decoded with fancy and with plain upsampling
+    SETS = [(3, (2, 2, 1, 2, 1, 2)), (3, (2, 2, 2, 1, 2, 1)), (3, (2, 2, 1, 1, 1, 1)), (3, (2, 1, 1, 1, 1, 1)), (3, (1, 2, 1, 1, 1, 1)),
+            (3, (4, 2, 1, 1, 1, 1)), (3, (4, 2, 2, 1, 2, 1)), (3, (4, 1, 2, 1, 2, 1)), (3, (4, 1, 1, 1, 1, 1)), (3, (1, 4, 1, 2, 1, 2)),
+            (3, (1, 4, 1, 1, 1, 1)), (3, (2, 4, 1, 1, 1, 1)), (3, (2, 2, 1, 2, 1, 1)), (3, (2, 2, 2, 1, 1, 2)), (3, (4, 2, 2, 2, 1, 1)),
+            (3, (2, 2, 2, 2, 1, 1)), (3, (1, 1, 1, 1, 1, 1)), (3, (3, 1, 1, 1, 1, 1)), (3, (1, 3, 1, 1, 1, 1)), (3, (3, 2, 1, 1, 1, 1)),
+            (2, (2, 3, 1, 3)), (2, (2, 4, 1, 4)), (2, (2, 2, 1, 2)), (2, (4, 2, 2, 2)), (2, (2, 4, 1, 2)), (2, (2, 1, 1, 1)), (1, (1, 1))]
+    for rep in range(ctx.n(3, 60)):
+        for nc, hv in SETS:
+            w = rng.choice([rng.range(1, 130), rng.range(30, 80), 70])
+            h = rng.choice([1, 2, 3, 8, 15, 16, 17, 33, 37, 37])
+            fast = 1 if rng.chance(1, 5) else 0
+            kind = rng.choice([0, 1, 5, 6, 7, 8]) if not fast else rng.choice([7, 8])
+            cases.append("j %d %d %d %d %d %d %d %s" % (w, h, rng.choice([50, 75, 90, 100]), fast, kind, rng.below(1 << 40), nc, " ".join(map(str, hv))))
     # legal JPEGs with dequantised coefficients outside the range of a real encoder
     for qp in ([8, 255] if not ctx.thorough() else [2, 8, 32, 255]):
         cases.append("p %d %d %d %d %d %d" % (rng.range(24, 80), rng.range(16, 40), rng.below(3), rng.choice([0, 2, 5]), rng.below(1 << 30), qp))
@@ -270,6 +311,13 @@ def codec_class(line, tok):
     t = line.split()
     if t[0] == "p":
         return "idct-out-of-range-coefficients:" + ("ifast" if tok.startswith("x1") else "islow"), "patched-DQT"
+    if t[0] == "j":
+        fast, kind = int(t[4]), int(t[5])
+        if fast and kind not in LOW_KINDS:
+            return "ifast-16bit-overflow:codec-libjpeg", "fast DCT, high-contrast image"
+        if tok.startswith("enc"):
+            return "codec:libjpeg:enc", ""
+        return "codec:libjpeg:dec:" + ("fancy" if tok.startswith("f1") else "plain"), ""
     w, h, ss, pf, q, flags, kind = (int(x) for x in t[1:8])
     low = kind in LOW_KINDS and q >= 50
     fast_enc = flags & 1
@@ -291,6 +339,11 @@ def describe(line):
     t = line.split()
     if t[0] == "p":
         return "legal JPEG with all quantisation values patched to %s (image %sx%s, %s)" % (t[6], t[1], t[2], SUBSAMP[int(t[3])])
+    if t[0] == "j":
+        nc = int(t[7])
+        hv = t[8:8 + 2 * nc]
+        return "libjpeg API: width=%s height=%s quality=%s dct=%s image-kind=%s components=%d sampling factors=%s" % (
+            t[1], t[2], t[3], "ifast" if t[4] == "1" else "islow", t[5], nc, ",".join("%sx%s" % (hv[2 * i], hv[2 * i + 1]) for i in range(nc)))
     w, h, ss, pf, q, flags, kind = (int(x) for x in t[1:8])
     fl = [n for b, n in ((1, "fastdct"), (2, "progressive"), (4, "optimize"), (8, "arithmetic"), (16, "restart")) if flags & b]
     return "width=%d height=%d subsamp=%s pixel-format=%d quality=%d flags=%s image-kind=%d src-offset=%s" % (
@@ -328,11 +381,11 @@ def do_codec(ctx, exe, cases):
             for ta, tb in zip(a[3:], b[3:]):
                 if ta != tb:
                     sig, why = codec_class(line, ta)
-                    ctx.violation("codec: decoded pixels differ between JSIMD_FORCENONE and %s in configuration %s (index:pf:fastupsample,fastdct:scale) for %s %s" % (
+                    ctx.violation("codec: decoded pixels differ between JSIMD_FORCENONE and %s in configuration %s (e-cases: index:pf:fastupsample,fastdct:scale; j-cases: f1 fancy / f0 plain upsampling) for %s %s" % (
                         name, ta.rsplit(":", 1)[0], describe(line), why),
                         {"mode": "codec", "case": line, "token": ta.rsplit(":", 1)[0], "none": ref[i], name: outs[name][i]}, signature=sig)
         t = line.split()
-        ctx.count("codec-" + (SUBSAMP[int(t[3])] if t[0] == "e" else "patched"), 1, ref[i][:60])
+        ctx.count("codec-" + (SUBSAMP[int(t[3])] if t[0] == "e" else "libjpeg-factors" if t[0] == "j" else "patched"), 1, ref[i][:60])
         if i % 977 == 0:
             ctx.sample({"case": line, "none": ref[i][:160]})
 
